@@ -342,6 +342,59 @@ def rule_6(ctx):
     ctx.floor(6, 'NPV / SLN witnesses')
 
 
+XN_CELLS = {
+    'A1': -100, 'A2': 10, 'A3': 200, 'B1': 60, 'B2': 61, 'B3': 425, 'C1': 30, 'C2': 60, 'C3': 400, 'D1': '=DATE(2020,1,1)', 'D2': '=DATE(2020,7,1)',
+    'D3': '=DATE(2021,1,1)', 'E1': 59.5, 'E2': 61.25, 'E3': 300.75, 'F1': -1000, 'F2': 700, 'F3': 900, 'G1': '=A1+F1', 'G2': '=A2+F2', 'G3': '=A3+F3',
+    'X1': '=XNPV(0.1,A1:A3,B1:B3)', 'X2': '=XNPV(0.1,A1:A3,C1:C3)', 'X3': '=XNPV(0.05,F1:F3,D1:D3)', 'X4': '=XNPV(0.1,A1:A3,E1:E3)',
+    'X5': '=XNPV(0,A1:A3,B1:B3)', 'X6': '=XNPV(0.1,F1:F3,B1:B3)', 'X7': '=XNPV(0.1,G1:G3,B1:B3)', 'X8': '=XNPV(2.5,F1:F3,C1:C3)',
+    'R1': '=XIRR(F1:F3,C1:C3)', 'R2': '=XIRR(A1:A3,B1:B3)', 'R3': '=XIRR(F1:F3,D1:D3,0.2)', 'R4': '=XIRR(F1:F3,E1:E3)',
+}
+
+
+def _xnpv_ref(rate, values, days):
+    return sum(v / (1.0 + rate) ** ((d - days[0]) / 365.0) for v, d in zip(values, days))
+
+
+def _xirr_ref(values, days):
+    lo, hi = -0.99, 1000.0
+    for _ in range(400):
+        mid = (lo + hi) / 2
+        if _xnpv_ref(mid, values, days) > 0:
+            lo = mid
+        else:
+            hi = mid
+    return (lo + hi) / 2
+
+
+def rule_7(ctx):
+    """A witness workbook, interpreted as written (scipy's secant iteration modelled by its documented algorithm): XNPV over ranges
+    of flows and dates - serials on both sides of serial 60, fractional serials, dates built by DATE - equals the closed form, is
+    linear in the flows and a plain sum at rate 0; XIRR returns the rate at which the closed form vanishes."""
+    from . import workbook as W
+    from . import scenarios as S
+    from . import values as V
+    anchor = _reg(ctx, 'XNPV').node if '_reg' in globals() else ctx.mod('xlfunctions.financial').func('XNPV')
+    models = dict(V.date_models())
+    models.update(V.scipy_models())
+    wb = W.Workbook(ctx, XN_CELLS, models=models)
+    A, F = [-100, 10, 200], [-1000, 700, 900]
+    B, C, E = [60, 61, 425], [30, 60, 400], [59.5, 61.25, 300.75]
+    D = [43831, 44013, 44197]
+    G = [a + f for a, f in zip(A, F)]
+    want = {'X1': _xnpv_ref(0.1, A, B), 'X2': _xnpv_ref(0.1, A, C), 'X3': _xnpv_ref(0.05, F, D), 'X4': _xnpv_ref(0.1, A, E), 'X5': 110.0,
+            'X6': _xnpv_ref(0.1, F, B), 'X7': _xnpv_ref(0.1, A, B) + _xnpv_ref(0.1, F, B), 'X8': _xnpv_ref(2.5, F, C),
+            'R1': _xirr_ref(F, C), 'R2': _xirr_ref(A, B), 'R3': _xirr_ref(F, D), 'R4': _xirr_ref(F, E)}
+    for a, w in want.items():
+        got = wb.value('Sheet1!' + a)
+        val = got[1] if isinstance(got, tuple) and len(got) == 2 and got[0] == 'Number' else got
+        tol = 1e-6 if a.startswith('R') else 1e-9 * max(1.0, abs(w))
+        ok = isinstance(val, (int, float)) and not isinstance(val, bool) and abs(val - w) <= tol
+        ctx.expect(ok, anchor, f'dated cash flows: {XN_CELLS[a]}',
+                   f'{a} = {XN_CELLS[a]} evaluates to {got!r}, the defining equation gives {w!r} (flows A = {A}, F = {F}; dates B = {B}, C = {C}, '
+                   f'E = {E}, D = 2020-01-01 / 2020-07-01 / 2021-01-01)')
+    ctx.floor(12, 'dated cash-flow cells')
+
+
 RULES = [
     ('C20.1', 'library binding; cash flows not filtered by truthiness', rule_1),
     ('C20.2', 'parameters influence every returned value', rule_2),
@@ -349,4 +402,5 @@ RULES = [
     ('C20.4', 'guards', rule_4),
     ('C20.5', 'shape of the closed forms', rule_5),
     ('C20.6', 'NPV / SLN on witness cash flows through the registered wrapper (a zero flow occupies a period)', rule_6),
+    ('C20.7', 'witness workbook: XNPV closed form / linearity, XIRR root, dates as serials around 60 and built by DATE', rule_7),
 ]
